@@ -1,4 +1,4 @@
-From Tramp Require Import Model.Base Model.Node Model.Provider Model.ProviderSys Proofs.ProviderProofs Proofs.ProviderTyped Props.C15.
+From Tramp Require Import Model.Base Model.Node Model.Provider Model.ProviderSys Proofs.ProviderProofs Proofs.ProviderTyped Proofs.ProviderLive Props.C15.
 Check C15_wait : forall (parts0 : list pstat) (evs : list pevent),
   hist_ok (wait_init parts0) evs = true ->
   let s := prun (wait_init parts0) evs in
@@ -16,8 +16,21 @@ Check C15_part_failure_does_not_abort : forall base aw cid,
 Check C15_error_only_after_a_read_error : forall (parts0 : list pstat) (evs : list pevent),
   hist_ok (wait_init parts0) evs = true -> hist_clean (wait_init parts0) evs = true ->
   ps_st (prun (wait_init parts0) evs) <> SFin PErr.
+Check C15_returns_within_bounded_steps : forall (parts0 : list pstat) (evs : list pevent),
+  hist_ok (wait_init parts0) evs = true ->
+  (forall k e, nth_error evs k = Some e -> peffective (prun (wait_init parts0) (firstn k evs)) e) ->
+  waiting (prun (wait_init parts0) evs) <> None ->
+  (length evs <= ppot (wait_init parts0))%nat.
+Check C15_never_at_rest_before_returning : forall (parts0 : list pstat) (evs : list pevent) w,
+  hist_ok (wait_init parts0) evs = true ->
+  waiting (prun (wait_init parts0) evs) = Some w ->
+  exists ev, pwf (prun (wait_init parts0) evs) ev = true /\ peffective (prun (wait_init parts0) evs) ev.
+Check (eq_refl : peffective = fun s ev => pstep s ev <> s).
+Check (eq_refl : waiting = fun s => match ps_st s with SWait w | SPayWait w => Some w | _ => None end).
 Print Assumptions C15_wait.
 Print Assumptions C15_invariant_everywhere.
 Print Assumptions C15_part_failure_does_not_abort.
 Print Assumptions C15_between_queries.
 Print Assumptions C15_error_only_after_a_read_error.
+Print Assumptions C15_returns_within_bounded_steps.
+Print Assumptions C15_never_at_rest_before_returning.
